@@ -11,6 +11,7 @@ import (
 	"sort"
 	"strings"
 	"sync"
+	"time"
 
 	"github.com/samsarahq/thunder/graphql"
 	"github.com/samsarahq/thunder/merge"
@@ -194,8 +195,101 @@ func OracleC17(res *Result) []Finding {
 		}
 	}
 	_ = cutIdx
+	// the same at the rerunner itself (hooks in reactive/rerunner.go): Stop's critical section runs exactly once for
+	// every rerunner the connection created, and after it the rerunner takes its lock only to find stop set - it
+	// does not publish, fail or retry any more
+	{
+		stops := map[int]int{}
+		for i, e := range res.Events {
+			if e.Kind != "rx" || e.Gen < 0 {
+				continue
+			}
+			switch e.Point {
+			case "mark":
+				stops[e.Gen]++
+				if stops[e.Gen] == 2 {
+					add("c17-rerunner-stopped-twice", "event %d: Stop ran a second time on the rerunner of generation %d", i, e.Gen)
+				}
+			case "publish", "failed", "retry":
+				if stops[e.Gen] > 0 {
+					add("c17-rerunner-active-after-stop", "event %d: the rerunner of generation %d reported %s after its Stop", i, e.Gen, e.Point)
+				}
+			case "locked":
+				if stops[e.Gen] > 0 && !e.Flag {
+					add("c17-rerunner-active-after-stop", "event %d: a run of the rerunner of generation %d took the lock after Stop and did not see stop", i, e.Gen)
+				}
+			}
+		}
+		if v.served && v.closeAllIdx >= 0 {
+			for _, g := range v.gens {
+				if stops[g.Gen] == 0 {
+					add("c17-rerunner-not-stopped", "the connection closed, Stop never ran on the rerunner of %s (generation %d)", g.ID, g.Gen)
+				}
+			}
+		}
+	}
+	fs = append(fs, metadataFindings(res, v, "c17")...)
+	// rate limiting: a re-run of a subscription starts no earlier than MinRerunInterval after the previous computation
+	// returned (twice that after a retry) - unless a mutation asked for an immediate re-run (cases with mutations are
+	// not judged)
+	if res.Case.IntervalMs > 0 {
+		mutated := false
+		for _, o := range res.Case.Ops {
+			if o.Op == "mutate" {
+				mutated = true
+			}
+		}
+		iv := time.Duration(res.Case.IntervalMs) * time.Millisecond
+		last := map[int]*runInfo{}
+		for _, n := range v.runOrder {
+			r := v.runs[n]
+			if r.Gen < 0 || r.Gen >= len(v.gens) || v.gens[r.Gen].IsMut {
+				continue
+			}
+			if prev := last[r.Gen]; prev != nil && prev.Ended && !mutated {
+				want := iv
+				if prev.End.Err != "" && !prev.End.Cancel && !prev.End.Initial {
+					want = 2 * iv
+				}
+				gap := res.Events[r.StartIdx].T.Sub(res.Events[prev.EndIdx].T)
+				if gap < want-time.Millisecond {
+					add("c17-rerun-before-min-interval", "generation %d: computation %d started %v after computation %d returned; the connection's MinRerunInterval is %v (%v required here)",
+						r.Gen, r.N, gap, prev.N, iv, want)
+				}
+			}
+			last[r.Gen] = r
+		}
+	}
 	for _, p := range res.Problems {
 		add(p.Sig, "%s", p.Detail)
+	}
+	return fs
+}
+
+// metadataFindings: every envelope a computation writes carries the metadata its middlewares produced (the harness's
+// observer puts the run and the generation there), the reader's own replies carry none.
+func metadataFindings(res *Result, v *view, prefix string) []Finding {
+	var fs []Finding
+	for i, e := range res.Events {
+		if e.Kind != "write" {
+			continue
+		}
+		_, has := e.Env["metadata"]
+		if e.Run < 0 {
+			if has {
+				fs = append(fs, Finding{prefix + "-envelope-metadata-wrong", fmt.Sprintf("event %d: the reader's reply %s carries metadata", i, js(e.Env))})
+			}
+			continue
+		}
+		r := v.runs[e.Run]
+		if r == nil {
+			continue
+		}
+		n, ok := metaInt(e.Env, "vrun")
+		g, ok2 := metaInt(e.Env, "vgen")
+		if !ok || !ok2 || n != e.Run || g != r.Gen {
+			fs = append(fs, Finding{prefix + "-envelope-metadata-wrong", fmt.Sprintf("event %d: envelope %s was written by computation %d of generation %d: its metadata should say so", i, js(e.Env), e.Run, r.Gen)})
+		}
 	}
 	return fs
 }
@@ -345,6 +439,7 @@ func OracleC02(res *Result) []Finding {
 			add("c02-go-client-diverged", "after op %d generation %d: client holds %s, fresh Execute gives %s", s.At, s.Gen, js(got), js(s.Want))
 		}
 	}
+	fs = append(fs, metadataFindings(res, v, "c02")...)
 	for _, p := range res.Problems {
 		add(p.Sig, "%s", p.Detail)
 	}
